@@ -89,6 +89,56 @@ def under(p, root):
     return p == root or root == "" or p.startswith(root + "/")
 
 
+# scope of one root's walk, by construction: the documented table (filtering.mdx / README "Ignore Files", written down in
+# checks/c09.py independently of the translator), the generator's own ignore rules (plain `name` / `name/` patterns), and
+# include / exclude patterns matched relative to the root
+IGN_KINDS = ["gitignore", "ignore", "rgignore", "rnignore"]
+IGN_FILE = {"gitignore": ".gitignore", "ignore": ".ignore", "rgignore": ".rgignore", "rnignore": ".rnignore"}
+PARENTS_CONSULTED = [True, True, False, False]     # ignore files in ancestors of the root: default and -u
+
+
+def rule_hits(rule, q, tree):
+    kind, d, pat = rule
+    name = pat.rstrip("/")
+    if not (d == "" or q.startswith(d + "/")):
+        return False
+    if os.path.basename(q) != name:
+        return False
+    return not pat.endswith("/") or tree[q][0] == "d"
+
+
+def reached(case, root, p):
+    """does the walk that starts at `root` yield `p` and do the glob sets (relative to `root`) let it through"""
+    from .c09 import DOC_HONOURED, glob_out
+    level, tree = case["level"], case["tree"]
+    rel = p[len(root):].lstrip("/") if root else p
+    if rel:
+        comps = rel.split("/")
+        for i in range(len(comps)):
+            q = (root + "/" if root else "") + "/".join(comps[: i + 1])
+            if comps[i] in (".git", ".renamify"):
+                return False
+            for rule in case["rules"]:
+                kind, d, _ = rule
+                if not DOC_HONOURED[kind][level]:
+                    continue
+                below = d == root or (root == "" or d.startswith(root + "/"))
+                above = not below and (d == "" or root.startswith(d + "/"))
+                if (below or (above and PARENTS_CONSULTED[level])) and rule_hits(rule, q, tree):
+                    return False
+    return not glob_out(case["inc"], case["exc"], rel)
+
+
+def ignore_facts(case):
+    """(kind index, directory of the ignore file, matched path) for the model's IgnoreOracle"""
+    out = []
+    for rule in case["rules"]:
+        for q in sorted(case["tree"]):
+            if rule_hits(rule, q, case["tree"]):
+                out.append((IGN_KINDS.index(rule[0]), rule[1], q))
+    return out
+
+
 def expected_renames(case, root_filter):
     """dict path -> (kind, new path) — at most one per node by construction"""
     tree, pairs = case["tree"], case["pairs"]
@@ -101,6 +151,9 @@ def expected_renames(case, root_filter):
             continue
         roots_over = [r for r in case["roots"] if under(p, r)]
         roots_over = [r for r in roots_over if ".git" not in p[len(r):].split("/")]
+        if case.get("scoped"):
+            # in scope = reached by the walk of ANY root (each root has its own walker and its own glob base)
+            roots_over = [r for r in roots_over if reached(case, r, p)]
         if not roots_over:
             continue
         if root_filter and p in case["roots"] and not case.get("rename_root"):
@@ -342,6 +395,100 @@ def gen_case(rng, idx):
     return case
 
 
+def gen_scoped_case(rng, idx):
+    """(affix words are attached with `.` so that file-name coercion — finding coercion_restyles_term — stays out of these cases)
+    nested search roots with something between them that hides the inner root from the outer root's walk: an ignore
+    file (four kinds, at the base directory above cwd, cwd, the outer root or any directory down to the parent of the
+    hidden directory), the inner root itself ignored, or include / exclude patterns that select differently relative
+    to each root; unrestricted level 0..3.  Every root is walked on its own, so what a root names is in scope."""
+    swords, rwords = gen.pick_terms(rng, 2, 2)
+    enabled = gen.DEFAULT_STYLES
+    pairs = pairs_for(swords, rwords, enabled)
+    tags = {"scoped"}
+    term = lambda st=None: gen.render(st or rng.choice(NAME_STYLES[:5]), swords)
+    cwd = "proj"
+    tree = {cwd: ("d", 0o755)}
+
+    def mk(path, kind="d", data=b"x\n"):
+        parts = path.split("/")
+        for i in range(1, len(parts)):
+            tree.setdefault("/".join(parts[:i]), ("d", 0o755))
+        tree[path] = ("d", 0o755) if kind == "d" else (("l", data) if kind == "l" else ("f", data, 0o644))
+        return path
+
+    outer = cwd if rng.random() < 0.6 else mk(cwd + "/ws")
+    chain = outer
+    for _ in range(rng.randint(0, 2)):
+        chain = mk(chain + "/" + rng.choice(["pkg", "crates", term("snake") + ".mod", "a"]))
+    hidden = mk(chain + "/" + rng.choice(["build", "out", "target", term("kebab") + ".out"]))
+    r = rng.random()
+    if r < 0.25:
+        inner = hidden
+    elif r < 0.7:
+        inner = mk(hidden + "/" + term() + ".gen")
+    else:
+        inner = mk(hidden + "/sub/" + term())
+    # content of the inner root, the visible part of the outer root, and a second ignored directory nobody names
+    mk(inner + "/" + term() + ".rs", "f")
+    mk(inner + "/gen/" + term() + ".impl.txt", "f")
+    mk(inner + "/gen/plain.md", "f")
+    if rng.random() < 0.5:
+        mk(inner + "/" + term() + ".link", "l", rng.choice(["nowhere", "gen"]))
+    mk(hidden + "/" + term() + ".beside.txt", "f")
+    mk(outer + "/" + term() + ".visible.md", "f")
+    mk(outer + "/src/" + term() + ".rs", "f")
+    mk(outer + "/gen/" + term() + ".top.txt", "f")
+    other = mk(outer + "/" + rng.choice(["cache", "tmpdir"]))
+    mk(other + "/" + term() + ".never.txt", "f")
+
+    level = rng.choice([0, 0, 1, 2, 3])
+    rules, inc, exc = [], [], []
+    mech = rng.choice(IGN_KINDS + IGN_KINDS + ["exclude", "include"])
+    parent_chain = []          # directories from the base down to the parent of `hidden`
+    d = os.path.dirname(hidden)
+    while True:
+        parent_chain.append(d)
+        if d == "":
+            break
+        d = os.path.dirname(d)
+    if mech in IGN_KINDS:
+        where = rng.choice(parent_chain)
+        target = hidden if rng.random() < 0.75 or inner == hidden else inner
+        if target == inner and where not in (os.path.dirname(inner),) and not (where == "" or inner.startswith(where + "/")):
+            where = os.path.dirname(inner)
+        if target == inner:
+            where = rng.choice([x for x in parent_chain + [os.path.dirname(inner)] if x == "" or inner.startswith(x + "/")])
+        pat = os.path.basename(target) + ("/" if rng.random() < 0.5 else "")
+        rules.append((mech, where, pat))
+        rules.append((rng.choice(IGN_KINDS), os.path.dirname(other), os.path.basename(other) + "/"))
+        tags.add("hide:" + mech)
+        tags.add("ignore_file_at:" + ("base" if where == "" else "cwd" if where == cwd else "outer_root" if where == outer
+                                      else "between"))
+        tags.add("hidden:inner_root_itself" if target == inner else "hidden:ancestor_of_inner_root")
+    elif mech == "exclude":
+        rel = hidden[len(outer) + 1:]
+        # trailing slash: always read as a directory pattern (`x/` + `x/**`), whatever characters the name has
+        exc = [rel.split("/")[0] + "/"]
+        tags.add("hide:exclude_glob")
+    else:
+        inc = ["gen/**"]
+        tags.add("hide:include_glob")
+    for kind, dd, pat in rules:
+        path = (dd + "/" if dd else "") + IGN_FILE[kind]
+        prev = tree[path][1] if path in tree else b""
+        tree[path] = ("f", prev + pat.encode() + b"\n", 0o644)
+    roots = [outer, inner]
+    rng.shuffle(roots)
+    if rng.random() < 0.2:
+        roots.append(rng.choice([outer, inner, mk(outer + "/src")]))
+    tags.add("level:%d" % level)
+    case = {"swords": swords, "rwords": rwords, "search": gen.render("snake", swords), "replace": gen.render("snake", rwords),
+            "styles": None, "plural": idx % 3 != 0, "tree": tree, "cwd": cwd, "roots": roots,
+            "flags": list(FLAGSETS[idx % 3]), "tags": sorted(tags), "scoped": True, "level": level, "inc": inc, "exc": exc,
+            "rules": rules, "pairs": pairs}
+    return case
+
+
 # ------------------------------------------------------------------------------------------------
 # requests
 
@@ -368,6 +515,13 @@ def plan_request(case, mode, vline, coerce=True, flags=None):
         k, v, a = e.split("=")
         f += [k, v, a]
     f += gen.wire_tree(case["tree"])
+    if case.get("scoped"):
+        f += ["S", str(case["level"]), "I", str(len(case["inc"]))] + [hexs(x) for x in case["inc"]]
+        f += ["X", str(len(case["exc"]))] + [hexs(x) for x in case["exc"]]
+        facts = ignore_facts(case)
+        f += ["G", str(len(facts))]
+        for k, d, q in facts:
+            f += [str(k), hexs(d), hexs(q)]
     return " ".join(f)
 
 
@@ -393,7 +547,9 @@ def describe(case):
     return {"swords": case["swords"], "rwords": case["rwords"], "search": case["search"], "replace": case["replace"], "styles": case["styles"] or "default",
             "plural": case["plural"], "cwd": case["cwd"], "roots": case["roots"], "flags": case["flags"],
             "tree": {p: (n[0] if n[0] != "l" else "l->" + n[1]) for p, n in sorted(case["tree"].items())},
-            "tags": case.get("tags", [])}
+            "tags": case.get("tags", []),
+            **({"scoped": True, "level": case["level"], "inc": case["inc"], "exc": case["exc"],
+                "rules": [list(r) for r in case["rules"]]} if case.get("scoped") else {})}
 
 
 # ------------------------------------------------------------------------------------------------
@@ -485,11 +641,20 @@ def cli_args(case):
         a.append("--no-plural-variants")
     if case.get("rename_root"):
         a.append("--rename-root")
+    if case.get("scoped"):
+        if case["level"]:
+            a.append("-" + "u" * case["level"])
+        for x in case["inc"]:
+            a += ["--include", x]
+        for x in case["exc"]:
+            a += ["--exclude", x]
     return a
 
 
 def path_set(snap):
-    return {p: (v[0], v[2] if v[0] != "d" else "") for p, v in snap.items()}
+    """path -> (type, content / link target); the content of an ignore file is left out: a pattern naming a directory
+    that carries the term is legitimately rewritten by the content phase, which is not this property's subject"""
+    return {p: (v[0], v[2] if v[0] != "d" and os.path.basename(p) not in IGN_FILE.values() else "") for p, v in snap.items()}
 
 
 def run_cli(case):
@@ -558,7 +723,7 @@ def judge_cli(ctx, case, model_line, model_plan_line):
     mstatus = model_line.split(" ", 1)
     mwire = mstatus[1] if len(mstatus) > 1 and mstatus[0] != "refused" else ""
     mtree = path_set({os.path.relpath(p, case["cwd"]): v for p, v in
-                      gen.parse_wire_tree(mwire).items() if p != case["cwd"]})
+                      gen.parse_wire_tree(mwire).items() if p.startswith(case["cwd"] + "/")})
     model_agrees = ((mstatus[0] == "ok") == (rc == 0)) and mtree == got
     moved = sorted(set(want) ^ set(got))
     if model_plan_line.startswith("refused"):
@@ -614,6 +779,13 @@ def case_from_json(c):
             "styles": styles, "plural": c.get("plural", True), "tree": tree, "cwd": c["cwd"], "roots": c["roots"],
             "flags": c.get("flags", []), "tags": c.get("tags", []), "rename_root": c.get("rename_root", False)}
     case["pairs"] = pairs_for(case["swords"], case["rwords"], styles or gen.DEFAULT_STYLES)
+    if c.get("scoped"):
+        case.update({"scoped": True, "level": c["level"], "inc": c.get("inc", []), "exc": c.get("exc", []),
+                     "rules": [tuple(r) for r in c.get("rules", [])]})
+        for kind, dd, pat in case["rules"]:
+            path = (dd + "/" if dd else "") + IGN_FILE[kind]
+            prev = tree[path][1] if path in tree and tree[path][0] == "f" and tree[path][1] != b"x\n" else b""
+            tree[path] = ("f", prev + pat.encode() + b"\n", 0o644)
     return case
 
 
@@ -672,7 +844,9 @@ def run(ctx):
                        "foreign-separator affix / plural s / two styles / twice / hidden / underscore prefix, with 10 extensions; "
                        "files, directories, symlinks (dangling too); flags none/--no-rename-files/--no-rename-dirs/--no-rename-paths; "
                        "roots: cwd, one subdirectory, two disjoint, nested, repeated, a file; style sets default + 3 subsets; "
-                       "1-3 word replacements (1 word gives destination collisions). Each case: scan/search/conf requests to "
+                       "1-3 word replacements (1 word gives destination collisions); every 8th case: nested roots with the inner "
+                       "root hidden from the outer root's walk (ignore file of the four kinds at base/cwd/outer root/in between, "
+                       "the inner root itself ignored, --exclude / --include relative to each root; level 0-3). Each case: scan/search/conf requests to "
                        "harness and model, oracle on the scan answer; a fixed number also through the CLI (`rename -y`). "
                        "non-trivial = at least one rename or a refusal; distinct = (mode, terms, tree, roots, flags)")
     ctx.assumptions += ["case-sensitive filesystem (the CaseInsensitive conflict kind is not modelled)",
@@ -682,6 +856,12 @@ def run(ctx):
     try:
         from translate import rename_tables
         rename_tables.run()
+        gen_text = open(os.path.join(common.LEAN, "RModel", "Gen", "RenameTables.lean")).read()
+        if "def everyRootPlanned : Bool := true" not in gen_text:
+            # the model's planMulti is the code's loop only if every search root is planned with its own walker
+            ctx.broke("translator", "Gen.everyRootPlanned",
+                      "scan_repository_multi no longer plans the renames of every search root (`for root in roots`): "
+                      "C08.every_root_contributes no longer speaks about the code")
     except Exception as ex:  # a translator that cannot parse its source is a broken tie
         ctx.broke("translator", "translate/rename_tables.py", repr(ex))
     ctx.prove("RModel.Props.C08")
@@ -698,7 +878,7 @@ def run(ctx):
             return
     n = 5000 if ctx.thorough else 1000
     n_cli = 1200 if ctx.thorough else 220
-    cases = [gen_case(rng, i) for i in range(n)]
+    cases = [gen_scoped_case(rng, i) if i % 8 == 5 else gen_case(rng, i) for i in range(n)]
     if not run_batch(ctx, cases, n_cli=n_cli, label="gen"):
         return
     ctx.sample({"case": describe(cases[0]), "expected": {p: q for p, (k, q) in expected_renames(cases[0], False).items()}})
@@ -706,7 +886,8 @@ def run(ctx):
 
     # a broken tie must be followed by a search for a failing input: widen around the disagreement
     if ctx.broken and not ctx.violations:
-        extra = [gen_case(rng, i) for i in range(n, n + (800 if ctx.thorough else 400))]
+        extra = [gen_scoped_case(rng, i) if i % 3 == 0 else gen_case(rng, i)
+                 for i in range(n, n + (800 if ctx.thorough else 400))]
         run_batch(ctx, extra, n_cli=60, label="widened")
 
 
